@@ -235,6 +235,18 @@ _reg("pre:comment-blank", "prelude", 3, m_prefix("# leading comment\n\n"))
 _reg("pre:shebang-cookie", "prelude", 3, m_prefix("#!/usr/bin/env python3\n# -*- coding: utf-8 -*-\n"))
 _reg("pre:nonascii", "prelude", 3, m_prefix('# ünïcödé ✓\nπ = "naïve ☃"\n'))
 _reg("pre:formfeed", "prelude", 3, m_prefix("\x0c\n"))
+# a function that imports, locally and unaliased, the modules and names codemods start using: a module-level use elsewhere
+# in the file is NOT covered by these bindings
+_reg("pre:local-imports", "prelude", 3, m_prefix(
+    "def _local_imports():\n"
+    "    import secrets, math, asyncio, ssl, urllib3, yaml, flask, fickling, lxml.etree, defusedxml, pathlib, sys, typing\n"
+    "    from datetime import timezone\n"
+    "    from dataclasses import field\n"
+    "    from typing import Optional\n"
+    "    from pathlib import Path\n"
+    "    from security import safe_requests, safe_command\n"
+    "    import defusedxml.ElementTree, defusedxml.sax, defusedxml.minidom\n"
+    "    return None\n\n\n"))
 _reg("post:def", "postlude", 3, m_suffix("\n\ndef _trailer(a, b=2):\n    return a\n"))
 _reg("post:comment-noeol", "postlude", 3, m_suffix("# end", True))
 _reg("mult:2", "mult", 1, m_mult(2))
